@@ -19,7 +19,7 @@ SPEC = {
         "Rust harness harness/hx_update/src/bin/c12.rs (generator, dump through a fresh snapshot, independent Rust reference graph) and lib/vcheck.py",
     ],
     "assumptions": [
-        "statements: one update clause with a MATCH / UNWIND prefix, executed by PreparedQuery::execute_write, one transaction per statement; statements chaining several update clauses (SET ... REMOVE ..., DELETE ... SET ...) are rejected by execute_write and only run through execute_mixed — not generated",
+        "statements: one update clause with a MATCH / WITH / UNWIND prefix and parameters, executed through PreparedQuery::execute_write or execute_mixed (the C API's entry point), chosen at random per statement, one transaction per statement; statements chaining several update clauses (SET ... REMOVE ..., DELETE ... SET ...) are outside the model (two fixed probes record K-C12-chained and K-C12-setafterdelete)",
         "MERGE: node patterns (labels + property map, any number of UNWIND rows) and relationship patterns between two bound nodes (one row per statement: within one statement the executor tracks the relationships it created individually while the storage keeps one property map per (src,type,dst)); ON CREATE / ON MATCH SET on keys disjoint from the pattern keys",
         "property values null/bool/int/float/string; a relationship key deleted earlier in the history is not created again (K-C06-eprops, a storage finding, would resurrect its properties)",
         "counters: the single u32 returned by execute_write (created / deleted entities, properties set or removed, label items), as the code counts them",
